@@ -199,6 +199,8 @@ func checkC14(res *Result) {
 	if fd := funcs["(JSONResolver).Resolve"]; fd == nil {
 		res.undecided("C14-R1", "JSONResolver.Resolve", "-", "method found", "missing")
 	} else {
+		mk := res.mark()
+		defer func() {}()
 		var handle *ast.FuncLit
 		ast.Inspect(fd.Body, func(n ast.Node) bool {
 			if fl, ok := n.(*ast.FuncLit); ok && handle == nil {
@@ -361,13 +363,24 @@ func checkC14(res *Result) {
 		}
 		res.check(okSingle, "C14-R2", "JSONResolver.Resolve", relPos(S.Fset, fd.Pos()), "a single 'type' string is dispatched directly and its result returned", "tail of Resolve has another form")
 		res.check(okArray, "C14-R2", "JSONResolver.Resolve", relPos(S.Fset, fd.Pos()), "for a 'type' array each string is tried in order; success returns, only ErrUnhandledType moves on, any other error (incl. ErrNoCallbackMatch and a callback's own error) is returned unchanged; none known ⇒ ErrUnhandledType", "the loop over the type array has another form (e.g. continues on more than ErrUnhandledType)")
-		res.Count("JSONResolver branches", len(entries), 60)
+		nJSON := len(entries)
+		if !res.allOKSince(mk) {
+			// the statement forms were not all recognised: read the relation off the SSA form
+			if es, ok := ssaEntriesFor(S, "JSONResolver", "Resolve", true, ifaceOf, mgrMethod); ok {
+				res.rollback(mk)
+				checkEntries("JSONResolver.Resolve", es, fd.Pos())
+				checkResolverTailSSA(res, S, "JSONResolver", "Resolve")
+				nJSON = len(es)
+			}
+		}
+		res.Count("JSONResolver branches", nJSON, 60)
 	}
 
 	// ---- TypeResolver.Resolve and TypePredicatedResolver.Apply
 	for _, tr := range []struct{ method, kind string }{{"(TypeResolver).Resolve", "type"}, {"(TypePredicatedResolver).Apply", "pred"}} {
 		fd := funcs[tr.method]
 		which := strings.NewReplacer("(", "", ")", "").Replace(tr.method)
+		mk := res.mark()
 		if fd == nil {
 			res.undecided("C14-R1", which, "-", "method found", "missing")
 			continue
@@ -510,12 +523,22 @@ func checkC14(res *Result) {
 		}
 		res.check(sawElse, "C14-R2", which, relPos(S.Fset, fd.Pos()), "the chain ends in an else for unknown types", "no final else")
 		checkEntries(which, entries, fd.Pos())
-		res.Count(which+" branches", len(entries), 60)
+		nBr := len(entries)
 		if tr.kind == "type" {
 			// after the loop: return ErrNoCallbackMatch
 			last := fd.Body.List[len(fd.Body.List)-1]
 			res.check(returnsIdent(last, "ErrNoCallbackMatch"), "C14-R2", which, relPos(S.Fset, last.Pos()), "no callback of the value's type yields ErrNoCallbackMatch", "different final statement")
 		}
+		if !res.allOKSince(mk) {
+			parts := strings.SplitN(which, ".", 2)
+			if es, ok := ssaEntriesFor(S, parts[0], parts[1], false, ifaceOf, mgrMethod); ok {
+				res.rollback(mk)
+				checkEntries(which, es, fd.Pos())
+				checkResolverTailSSA(res, S, parts[0], parts[1])
+				nBr = len(es)
+			}
+		}
+		res.Count(which+" branches", nBr, 60)
 	}
 
 	checkC14SSA(res)
@@ -568,7 +591,24 @@ func checkC14(res *Result) {
 		}
 		seen := map[string]int{}
 		hasDefaultErr := false
+		// the validation may live in a function the constructor calls (split out of it)
+		bodies := []ast.Node{fd.Body}
 		ast.Inspect(fd.Body, func(n ast.Node) bool {
+			if c, ok := n.(*ast.CallExpr); ok {
+				if f := calleeFunc(info, c); f != nil && f.Pkg() == S.Root.Types {
+					if cd := S.funcDecl[f]; cd != nil && cd != fd && cd.Body != nil {
+						bodies = append(bodies, cd.Body)
+					}
+				}
+			}
+			return true
+		})
+		inspectAll := func(f func(ast.Node) bool) {
+			for _, b := range bodies {
+				ast.Inspect(b, f)
+			}
+		}
+		inspectAll(func(n ast.Node) bool {
 			ts, ok := n.(*ast.TypeSwitchStmt)
 			if !ok {
 				return true
@@ -577,8 +617,10 @@ func checkC14(res *Result) {
 				cc := cl.(*ast.CaseClause)
 				if cc.List == nil {
 					for _, st := range cc.Body {
-						if r, ok := st.(*ast.ReturnStmt); ok && len(r.Results) == 2 && isIdentNamed(r.Results[0], "nil") {
-							hasDefaultErr = true
+						if r, ok := st.(*ast.ReturnStmt); ok && len(r.Results) >= 1 && !isIdentNamed(r.Results[len(r.Results)-1], "nil") {
+							if len(r.Results) == 1 || isIdentNamed(r.Results[0], "nil") {
+								hasDefaultErr = true
+							}
 						}
 					}
 					continue
